@@ -441,6 +441,49 @@ func Battery(txn statedb.ReadTxn, tbl statedb.Table[*Obj], m *TableModel, probes
 	for _, o := range all {
 		h.Str(o.ID).Int(int64(o.N)).Int(int64(o.Rev))
 	}
+	// the untyped view of the table is a read like any other
+	if anyTable && msg == "" {
+		at := statedb.AnyTable{Meta: tbl}
+		aall := observeAny(at.All(txn))
+		wall, wch := at.AllWatch(txn)
+		aw := observeAny(wall)
+		eq := func(x []Obs) bool {
+			if len(x) != len(all) {
+				return false
+			}
+			for i := range x {
+				if x[i] != all[i] {
+					return false
+				}
+			}
+			return true
+		}
+		if n := at.NumObjects(txn); n != len(m.Objs) {
+			fail("anytable/numobjects", "AnyTable.NumObjects=%d want %d", n, len(m.Objs))
+		} else if !eq(aall) || !eq(aw) || wch == nil {
+			fail("anytable/all", "AnyTable.All returned %s, AllWatch %s (channel nil: %v), Table.All %s", fmtObs(aall), fmtObs(aw), wch == nil, fmtObs(all))
+		}
+		// the iterator helpers over a query result
+		var viaMap []Obs
+		for id := range statedb.Map(statedb.Filter(tbl.All(txn), func(o *Obj) bool { return o.N%2 == 0 }), func(o *Obj) string { return string(o.ID) }) {
+			viaMap = append(viaMap, Obs{ID: id})
+		}
+		var want []Obs
+		for _, o := range all {
+			if o.N%2 == 0 {
+				want = append(want, Obs{ID: o.ID})
+			}
+		}
+		collected := statedb.Collect(tbl.All(txn))
+		if !slices.Equal(viaMap, want) || len(collected) != len(all) {
+			fail("anytable/helpers", "Map(Filter(All)) yields %s want %s; Collect(All) has %d elements, All %d", fmtObs(viaMap), fmtObs(want), len(collected), len(all))
+		}
+		for i := 0; msg == "" && i < len(collected); i++ {
+			if string(collected[i].ID) != all[i].ID || collected[i].N != all[i].N {
+				fail("anytable/helpers", "Collect(All)[%d] = %v, All yields %s", i, collected[i], fmtObs(all))
+			}
+		}
+	}
 	// the JSON dump of the transaction is a read like any other
 	if msg == "" {
 		var buf bytes.Buffer
